@@ -82,6 +82,8 @@ def evaluate(name, props):
     finally:
         sh("git -C /repo checkout -- .")
         sh("git -C /repo clean -fdq")
+        # evidence written while a seeded change was applied says nothing about the real tree
+        sh("git -C %s checkout -- evidence" % ROOT)
         # violation replays produced against a mutant are not evidence about the real tree
         for f in os.listdir(os.path.join(ROOT, "replays")):
             if time.time() - os.path.getmtime(os.path.join(ROOT, "replays", f)) < 4000 and not f.startswith("keep"):
